@@ -31,6 +31,7 @@ type Config struct {
 	StopOnFirst bool
 	MergeFuncs  map[string]bool // pure functions summarised by ITE-merging their paths
 	ExactReal   bool            // concrete float divisions that are inexact are kept as exact rationals
+	UFStubs     map[string]bool // float-valued functions replaced by an uninterpreted function of their scalar arguments
 	FeasMs      int             // shorter solver timeout for branch-feasibility queries (unknown keeps both sides)
 }
 
